@@ -205,7 +205,10 @@ mod verif_nat {
             i += 1;
         }
         assert!(val_rel(&abs(&r), 0) == Some(w_limbs(m)));
-        kani::cover!(r.ptr != DANGLING);
+        if L >= 2 {
+            kani::cover!(r.ptr != DANGLING); // heap result
+            kani::cover!(r.ptr != DANGLING && r.shl >= 64); // leading zero digits became exponent
+        }
         kani::cover!(r.ptr == DANGLING);
     }
     #[kani::proof]
@@ -308,17 +311,29 @@ mod verif_nat {
     /// `dst.clone_from(&src)`: dst becomes a wf value equal to src with its own storage, src unchanged,
     /// both can be dropped afterwards.
     fn check_clone_from<const LD: usize, const LS: usize>() {
-        let mut dst = any_nat::<LD>();
+        let dst = any_nat::<LD>();
         let src = any_nat::<LS>();
+        clone_from_contract(dst, src);
+    }
+    fn clone_from_contract(mut dst: Natural, src: Natural) {
         let want = abs(&src);
         dst.clone_from(&src);
         assert!(dst.len == src.len);
         assert!((dst.ptr == DANGLING) == (src.ptr == DANGLING));
         assert!(wf(&dst));
         assert!(abs(&dst) == want && abs(&src) == want);
-        if LS > 1 {
+        if src.ptr != DANGLING {
             assert!(dst.ptr != src.ptr);
         }
+    }
+    /// same contract, destination inline with mantissa 1 (bounded variant of clone_from_1_2: with an
+    /// arbitrary destination mantissa the defective length makes Kani hit an unsupported construct)
+    #[kani::proof]
+    #[kani::unwind(34)]
+    fn clone_from_1_2_dst_one() {
+        let dst = Natural::from(1u32);
+        let src = any_nat::<2>();
+        clone_from_contract(dst, src);
     }
     macro_rules! clone_from_h {
         ($($name:ident: $ld:literal, $ls:literal;)*) => {$(
@@ -500,7 +515,11 @@ mod verif_nat {
                 _ => None,
             }
         };
-        kani::cover!(v128.is_some() && aa.e > 0);
+        if L < 3 {
+            kani::cover!(v128.is_some() && aa.e > 0);
+        } else {
+            kani::cover!(v128.is_some()); // raw length 3 with a zero top digit, exponent 0
+        }
         kani::cover!(v128.is_none() && !aa.nan);
         let r = u128::try_from(&a);
         match v128 {
